@@ -145,7 +145,7 @@ func optName(code uint16) string {
 	case 65001:
 		return "o65001"
 	}
-	return fmt.Sprintf("code%d", code)
+	return fmt.Sprintf("o%d", code)
 }
 
 func countOpt(m *dns.Msg) (inExtra, elsewhere int, last *dns.OPT) {
@@ -570,6 +570,64 @@ func TestVerifC15(t *testing.T) {
 			lastDone = fmt.Sprintf("all chains of length <= %d", l)
 		}
 	}
+	// ---- option-code sweep: a forwarder configured for ONE code, a client option and an upstream
+	// option of code c, for the codes of the 16-bit space that travel as opaque options
+	sweepChains := [][]string{{"fwdopt10", "forward"}, {"fwdopt65001", "forward"}}
+	nCodes := 0
+	for c := 0; c < 65536 && !expired; c++ {
+		if !thorough && !(c%64 == 8 || c%64 == 10 || c%64 == 12 || c%64 == 15 || c%64 == 65001%64 || c%97 == 0 || c < 128 || c > 65400) {
+			continue
+		}
+		// typed codes (the dns library gives them a structure of their own) are part of the main product
+		probe := &dns.OPT{Hdr: dns.RR_Header{Name: ".", Rrtype: dns.TypeOPT}, Option: []dns.EDNS0{&dns.EDNS0_LOCAL{Code: uint16(c), Data: []byte("x")}}}
+		pm := new(dns.Msg)
+		pm.Extra = []dns.RR{probe}
+		rt := new(dns.Msg)
+		if pb, err := pm.Pack(); err != nil || rt.Unpack(pb) != nil || len(rt.Extra) != 1 {
+			continue
+		} else if o, ok := rt.Extra[0].(*dns.OPT); !ok || len(o.Option) != 1 {
+			continue
+		} else if _, ok := o.Option[0].(*dns.EDNS0_LOCAL); !ok {
+			continue
+		}
+		nCodes++
+		name := fmt.Sprintf("o%d", c)
+		for _, ch := range sweepChains {
+			i := unit
+			unit++
+			if expired || !e.Mine(i) {
+				continue
+			}
+			if distinct&0x3f == 0 && e.Expired() {
+				expired = true
+				continue
+			}
+			distinct++
+			q := base
+			q.Opt, q.Options = 4096, []string{name}
+			cs := Case{Chain: ch, Q: q, Up: hpipe.UpOutcome{Kind: "answer", NRec: 2, HasOpt: true, Options: []string{name}}, Arrival: "udp"}
+			cr, vd := evalCase(cs)
+			res.Evaluations++
+			res.Transitions += int64(len(cr.Obs))
+			for _, v := range vd {
+				res.Outcome(fmt.Sprintf("code-sweep/%s/%s", ch[0], v.Kind))
+			}
+			if _, v := firstViolation(vd); v != nil {
+				clause := v.Clause
+				for _, pre := range []string{"up-leak-o", "reply-leak-o"} {
+					if strings.HasPrefix(clause, pre) {
+						clause = pre + "paque-code" // one signature for all codes
+					}
+				}
+				key := clause + "/code-sweep/" + ch[0]
+				if !seen[key] {
+					seen[key] = true
+					res.ViolateInput(clause+"/"+families(cs)+"/code-sweep", fmt.Sprintf("%s\n  chain %s, client option code %d, upstream option code %d", v.Desc, cs.chainLabel(), c, c), cs)
+				}
+			}
+		}
+	}
+	res.Bounds["code_sweep"] = fmt.Sprintf("%d option codes x chains %v: the client and the upstream each carry one opaque option of that code", nCodes, sweepChains)
 	res.States = distinct
 	res.Exhaustive = !expired
 	if expired {
